@@ -172,6 +172,73 @@ func evBitFwd(t *Tracer, id BID, hz, vz, S, mn, mx int64, sp bool) {
 	t.Emit(e, true)
 }
 
+// evBitHi: subdivision zooms 13..35 with the range [mn, mn + cell * 2^vz) given by its cell height
+// (all in units of 2^-S m); the voxel / the cell index stay near the bottom of the range so that
+// every number the model sees is small.
+func evBitFwdHi(t *Tracer, id BID, hz, vz, S, mn, cell int64) {
+	rid := absW.realBID(id)
+	sh := 25 - id.V + S
+	if sh < 0 || sh > 28 {
+		return
+	}
+	lo, hi := id.F<<uint(sh), (id.F+1)<<uint(sh)
+	minH := unitsToM(mn, S)
+	maxH := minH + math.Ldexp(unitsToM(cell, S), int(vz))
+	o, res := guard(func() (any, error) {
+		return transform.ConvertExtendedSpatialIDsToQuadkeysAndVerticalIDs([]string{rid.String()}, hz, vz, maxH, minH)
+	})
+	e := absW.ev("BitFwdHi", map[string]any{"id": id.Arr(), "hz": hz, "vz": vz, "S": S, "lo": lo, "hi": hi, "mn": mn, "cell": cell})
+	e.O, e.Real = o, map[string]any{"id": rid.String(), "maxHeight": fmt.Sprint(maxH), "minHeight": fmt.Sprint(minH)}
+	e.R = []any{}
+	if o == "panic" {
+		e.Bad = "panic"
+	} else if res != nil {
+		groups := []any{}
+		for _, g := range res.([]*object.FromExtendedSpatialIDToQuadkeyAndVerticalID) {
+			pairs := []any{}
+			for _, p := range g.InnerIDList() {
+				d, ok := quadDigits(p[0], g.QuadkeyZoom())
+				if !ok {
+					e.Bad = "quadkey does not fit zoom"
+					continue
+				}
+				pairs = append(pairs, []any{d, p[1]})
+			}
+			groups = append(groups, map[string]any{"hz": g.QuadkeyZoom(), "vz": g.VerticalZoom(),
+				"echo": g.MaxHeight() == maxH && g.MinHeight() == minH, "pairs": pairs})
+		}
+		e.R = groups
+	}
+	t.Emit(e, true)
+}
+
+func evBitBackHi(t *Tracer, q QK, hz, ovz, S, mn, cell int64) {
+	minH := unitsToM(mn, S)
+	maxH := minH + math.Ldexp(unitsToM(cell, S), int(q.VZ))
+	in := []*object.QuadkeyAndVerticalID{object.NewQuadkeyAndVerticalID(q.QZ, digitsToKey(q.Digits), q.VZ, q.VI, maxH, minH)}
+	o, res := guard(func() (any, error) {
+		return transform.ConvertQuadkeysAndVerticalIDsToExtendedSpatialIDs(in, hz, ovz)
+	})
+	e := absW.ev("BitBackHi", map[string]any{"key": []any{q.QZ, q.Digits, q.VZ, q.VI}, "hz": hz, "ovz": ovz, "S": S, "mn": mn, "cell": cell})
+	e.O, e.Real = o, map[string]any{"maxHeight": fmt.Sprint(maxH), "minHeight": fmt.Sprint(minH)}
+	e.R = []any{}
+	if o == "panic" {
+		e.Bad = "panic"
+	} else {
+		e.R = absW.projBIDList(strs(res), false, &e.Bad)
+	}
+	t.Emit(e, true)
+}
+
+func (r Rng) quadOf(qz int64) []int64 {
+	x, y := r.patternedIndex(qz), r.patternedIndex(qz)
+	d := make([]int64, qz)
+	for j := int64(0); j < qz; j++ {
+		d[j] = 2*((y>>uint(qz-1-j))&1) + (x>>uint(qz-1-j))&1
+	}
+	return d
+}
+
 func evBitBack(t *Tracer, q QK, hz, ovz, S, mn, mx int64) {
 	maxH, minH := unitsToM(mx, S), unitsToM(mn, S)
 	in := []*object.QuadkeyAndVerticalID{object.NewQuadkeyAndVerticalID(q.QZ, digitsToKey(q.Digits), q.VZ, q.VI, maxH, minH)}
@@ -300,6 +367,46 @@ func driveTiles(t *Tracer, r Rng, n int) {
 
 func driveBits(t *Tracer, r Rng, n int) {
 	for i := 0; i < n; {
+		if r.Chance(0.25) { // high subdivision zooms
+			vz := r.In(13, 35)
+			S := r.In(0, 12)
+			cell := r.Pick(1, 2, 3, 4, 8, 5)
+			mn := r.In(-200, 200)
+			// the range must stay inside +-2^26 m: cell * 2^vz * 2^-S <= 2^26
+			if float64(cell)*math.Ldexp(1, int(vz-S)) > math.Ldexp(1, 26) {
+				continue
+			}
+			if r.Chance(0.5) {
+				v := r.In(maxI(0, 25+S-6), minI(35, 25+S))
+				sh := 25 - v + S
+				f := (mn + r.In(-3*cell, 40*cell)) >> uint(sh)
+				id := BID{V: v, F: f, H: r.In(0, 31)}
+				id.X, id.Y = r.patternedIndex(id.H), r.patternedIndex(id.H)
+				hz := r.In(maxI(1, id.H-20), minI(31, id.H+2))
+				if ((int64(1) << uint(sh)) / cell) > 64 {
+					continue
+				}
+				evBitFwdHi(t, id, hz, vz, S, mn, cell)
+			} else {
+				qz := r.In(1, 31)
+				k := r.In(0, 50)
+				ovz := r.In(0, 35)
+				sh := ovz - 25 - S
+				run := cell
+				if sh > 0 {
+					if sh > 20 {
+						continue
+					}
+					run = cell << uint(sh)
+				}
+				if run > 64 || sh > 0 && (abs64(mn)+(k+1)*cell)<<uint(sh) >= 1<<28 {
+					continue
+				}
+				evBitBackHi(t, QK{QZ: qz, Digits: r.quadOf(qz), VZ: vz, VI: k}, r.In(maxI(0, qz-20), minI(35, qz+2)), ovz, S, mn, cell)
+			}
+			i++
+			continue
+		}
 		if r.Chance(0.5) { // forward
 			vz := r.In(0, 12)
 			if r.Chance(0.2) {
@@ -417,6 +524,14 @@ func init() {
 	})
 	reg("BitFwd", func(t *Tracer, w Win, a map[string]any) {
 		evBitFwd(t, decBID(a["id"]), decInt(a["hz"]), decInt(a["vz"]), decInt(a["S"]), decInt(a["mn"]), decInt(a["mx"]), decBool(a["sp"]))
+	})
+	reg("BitFwdHi", func(t *Tracer, w Win, a map[string]any) {
+		evBitFwdHi(t, decBID(a["id"]), decInt(a["hz"]), decInt(a["vz"]), decInt(a["S"]), decInt(a["mn"]), decInt(a["cell"]))
+	})
+	reg("BitBackHi", func(t *Tracer, w Win, a map[string]any) {
+		k := a["key"].([]any)
+		evBitBackHi(t, QK{QZ: decInt(k[0]), Digits: decInts(k[1]), VZ: decInt(k[2]), VI: decInt(k[3])},
+			decInt(a["hz"]), decInt(a["ovz"]), decInt(a["S"]), decInt(a["mn"]), decInt(a["cell"]))
 	})
 	reg("BitBack", func(t *Tracer, w Win, a map[string]any) {
 		k := a["key"].([]any)
